@@ -440,7 +440,12 @@ class Tiny:
                 import operator
                 ops = {ast.Add: operator.add, ast.Sub: operator.sub, ast.BitOr: operator.or_, ast.BitAnd: operator.and_, ast.Mult: operator.mul,
                        ast.LShift: operator.lshift, ast.RShift: operator.rshift, ast.BitXor: operator.xor}
-                if type(st.op) not in ops or isinstance(cur, Buf) or isinstance(v, Buf):
+                if isinstance(st.op, ast.Add) and isinstance(cur, Buf) and isinstance(v, Buf):
+                    if not (cur.hi == v.lo or len(cur) == 0 or len(v) == 0):
+                        raise AnalysisError("tiny: concatenation of non-adjacent slices")
+                    cur, v = None, Buf(cur.lo if len(cur) else v.lo, v.hi if len(v) else cur.hi)
+                    ops = {ast.Add: lambda a_, b_: b_}
+                if type(st.op) not in ops or isinstance(cur, Buf) or (isinstance(v, Buf) and cur is not None):
                     raise AnalysisError(f"tiny: augmented assignment {ast.unparse(st)[:40]}")
                 if isinstance(st.op, ast.BitXor) and (isinstance(cur, Sym) or isinstance(v, Sym)):
                     val = ("xor", cur, v)
@@ -556,7 +561,7 @@ class Tiny:
                 self.ev(st.value)
             elif isinstance(st, ast.FunctionDef):
                 self.env[st.name] = Sym(f"function {st.name}")
-            elif isinstance(st, (ast.Pass, ast.Assert, ast.Import, ast.ImportFrom)):
+            elif isinstance(st, (ast.Pass, ast.Assert, ast.Import, ast.ImportFrom, ast.Nonlocal, ast.Global)):
                 continue
             else:
                 raise AnalysisError(f"tiny: statement {type(st).__name__} at line {st.lineno}")
